@@ -298,6 +298,7 @@ def run_options_tlc(ctx, tests, infeasible, excl, rej, with_core):
         "Domain": "[o \\in c_Options |-> CASE " + " [] ".join(f"o = {q(o)} -> {q(set(v))}" for o, v in DOMAIN.items()) + "]",
         "Excl": tup(excl), "Reject": tup(rej), "Infeasible": tup(infeasible),
         "Core": q(set(CORE)) if with_core else "{}",
+        "CoreSpace": ("{[" + ", ".join(f"{o} |-> v_{o}" for o in CORE) + "] : " + ", ".join(f"v_{o} \\in {q(set(DOMAIN[o]))}" for o in CORE) + "}") if with_core else "{}",
         "Tests": "<<" + ", ".join("[" + ", ".join(f"{o} |-> {q(t[o])}" for o in DOMAIN) + "]" for t in tests) + ">>",
         "Emit": "TRUE",
     }
